@@ -143,7 +143,7 @@ def body(c, ctx):
     sub0 = res['subdomains']
     sub2 = m2.subdomains or {}
     if set(sub2) != set(sub0):
-        ctx.fail('subdomain_names', f'{sorted(sub2)} vs {sorted(sub0)}', **sig)
+        ctx.fail('subdomain_names', f'{sorted(sub2, key=str)} vs {sorted(sub0, key=str)}', **sig)
     else:
         for k in sub0:
             if set(np.asarray(sub2[k]).tolist()) != set(sub0[k].tolist()):
@@ -152,7 +152,7 @@ def body(c, ctx):
     b0 = m.boundaries or {}
     b2 = m2.boundaries or {}
     if set(b2) != set(b0):
-        ctx.fail('boundary_names', f'{sorted(b2)} vs {sorted(b0)}', **sig)
+        ctx.fail('boundary_names', f'{sorted(b2, key=str)} vs {sorted(b0, key=str)}', **sig)
     else:
         for k in b0:
             a, b = ori_map(b0[k]), ori_map(b2[k])
